@@ -65,6 +65,34 @@ pub fn c16(tier: &str, seed: u64) -> Vec<Case> {
             }
         }
     }
+    // a TXT built from parts without any string, and names / records differing only in letter case
+    {
+        let t0 = ResourceRecord::new(Name::new_unchecked("t"), CLASS::IN, 0, RData::TXT(rdata::TXT::new()));
+        let o = t0.clone().into_owned();
+        let mut c = Case::new(format!("owned.rr {}", text::rr(&t0)), text::rr(&o)).tag("empty-txt");
+        if !(o == t0) || h(&o) != h(&t0) || plain_bytes(&o) != plain_bytes(&t0) || o.rdata.clone().into_owned() != t0.rdata { c = c.fail("into-owned-eq", "TXT without strings: the owned copy differs".into()); }
+        // the copy must stay usable: extend it and serialise
+        if let (RData::TXT(mut a), RData::TXT(mut b)) = (o.rdata.clone(), t0.rdata.clone()) {
+            a.add_char_string(crate::gen::mk_cs(b"x")); b.add_char_string(crate::gen::mk_cs(b"x"));
+            let (ra, rb) = (ResourceRecord::new(Name::new_unchecked("t"), CLASS::IN, 0, RData::TXT(a)), ResourceRecord::new(Name::new_unchecked("t"), CLASS::IN, 0, RData::TXT(b)));
+            if plain_bytes(&ra) != plain_bytes(&rb) { c = c.fail("into-owned-bytes", "TXT without strings: the extended owned copy serialises differently".into()); }
+        }
+        v.push(c);
+    }
+    for (x, y) in [("Example.com", "example.com"), ("a.B.c", "a.b.c"), ("LOCAL", "local"), ("x.y", "x.y")] {
+        let (na, nb) = (Name::new_unchecked(x).into_owned(), Name::new_unchecked(y).into_owned());
+        let (eq, heq) = (na == nb, h(&na) == h(&nb));
+        let mut c = Case::new(format!("hash.name {} {}", text::name(&na), text::name(&nb)), format!("{} {}", eq as u8, heq as u8)).tag("hash.name-case");
+        if eq && !heq { c = c.fail("eq-hash", format!("names {:?} and {:?} compare equal but hash differently", x, y)); }
+        v.push(c);
+        let (ra, rb) = (ResourceRecord::new(na.clone(), CLASS::IN, 1, RData::PTR(rdata::PTR(nb.clone()))), ResourceRecord::new(nb.clone(), CLASS::IN, 2, RData::PTR(rdata::PTR(na.clone()))));
+        let (eq, heq) = (ra == rb, h(&ra) == h(&rb));
+        let mut set = HashSet::new(); set.insert(ra.clone());
+        let mut c = Case::new(format!("hash.rr {} {}", text::rr(&ra), text::rr(&rb)), format!("{} {}", eq as u8, heq as u8)).tag("hash.rr-case");
+        if eq && !heq { c = c.fail("eq-hash", "records whose names differ in case compare equal but hash differently".into()); }
+        if eq != set.contains(&rb) { c = c.fail("hashset-lookup", "".into()); }
+        v.push(c);
+    }
     // questions
     for _ in 0..(if thorough { 2000 } else { 200 }) {
         let q = g.question();
@@ -168,6 +196,14 @@ pub fn c12(tier: &str, seed: u64) -> Vec<Case> {
         g.share = 2; // mostly hostile labels
         let p = g.packet(3);
         if let Ok(b) = p.build_bytes_vec_compressed() { if b.len() < 3000 { inputs.push((b, "hostile-labels".to_string())); } }
+    }
+    // tiny TXT contents (quotes, separators, NUL, invalid UTF-8), whole and split
+    for strings in crate::props::c19::tiny_txt_contents() {
+        let mut t = rdata::TXT::new();
+        for s in &strings { t.add_char_string(crate::gen::mk_cs(s)); }
+        let mut p = Packet::new_reply(3);
+        p.answers.push(ResourceRecord::new(Name::new_unchecked("t"), CLASS::IN, 0, RData::TXT(t)));
+        if let Ok(b) = p.build_bytes_vec() { inputs.push((b, "tiny-txt".to_string())); }
     }
     for (b, tag) in inputs {
         let parsed = std::panic::catch_unwind(|| Packet::parse(&b).ok()).unwrap_or(None);
